@@ -7,7 +7,7 @@ from models import refstore
 ID = "C12"
 RULE = (
     "two families of cases, both executed on the real PathsManager in a clean sandbox and compared with models/refstore.Paths: "
-    "(roundtrip) every ordered list of 1..3 distinct csvpath texts from an 11-text alphabet (no comment, id, name, id+name "
+    "(roundtrip) every ordered list of 1..3 distinct csvpath texts from a 14-text alphabet (no comment, id, name, identities that start with or contain digits, id+name "
     "precedence, comment after the csvpath, inner comments, newlines/indentation, multi-line outer comment, quoted header) -> "
     "add, get, every name#id and $name.csvpaths.id, every :from/:to; (history) every sequence of <=3 (thorough <=4) operations over "
     "{add(name in 2, list in 5), remove(name in 2), new instance}, with get/#id/:from/:to for every group and manifest length + "
@@ -15,8 +15,8 @@ RULE = (
     "state = model store after each operation"
 )
 BOUNDS = {
-    "quick": "1,111 round-trip lists (1..3 of 11 texts) + all 2,379 histories of length<=3 over 13 operations",
-    "thorough": "9,031 round-trip lists (1..4 of 11 texts) + all 30,940 histories of length<=4",
+    "quick": "2,380 round-trip lists (1..3 of 14 texts) + all 2,379 histories of length<=3 over 13 operations",
+    "thorough": "10,300 round-trip lists (1..3 of 14 texts, 4 of the first 11) + all 30,940 histories of length<=4",
 }
 CHUNK = 60
 BUDGET = {"quick": 500, "thorough": 3500}
@@ -37,6 +37,9 @@ T = [
     ("theta", '~ name: theta ~ $f[*][#"a b" == "x"]'),
     ("iota", "~ ID: iota Name: notme2 ~ $f[*][yes()]"),
     ("kappa", "~ NAME: kappa ~ $f[2][yes()]"),
+    ("2", "~ id: 2 ~ $f[*][yes()]"),
+    ("3rd-check", "~ name: 3rd-check ~ $f[*][#0]"),
+    ("b4_x", "~ id: b4_x ~ $f[*][no()]"),
 ]
 LISTS = [[0], [1, 2], [2, 1], [1, 2, 6], [7]]
 NAMES = ["p1", "p2"]
@@ -56,7 +59,7 @@ def _ops():
 def cases(tier, seed):
     maxlist = 3 if tier == "quick" else 4
     for k in range(1, maxlist + 1):
-        for lst in itertools.permutations(range(len(T)), k):
+        for lst in itertools.permutations(range(len(T) if k <= 3 else 11), k):
             yield {"kind": "roundtrip", "list": list(lst)}
     maxh = 3 if tier == "quick" else 4
     ops = _ops()
